@@ -1,6 +1,7 @@
 package rules
 
 import (
+	"sort"
 	"fmt"
 	"go/token"
 	"go/types"
@@ -117,6 +118,9 @@ func runC07(c *Ctx) {
 	r.NotDecided = []string{"equality of each derived view with a from-scratch recomputation", "uniqueness of assigned virtual IPs over histories"}
 
 	fns := p.SrcFuncs(statePkg)
+	r.Clauses = append(r.Clauses, "C07.8 the config-entry kinds that give a service a virtual IP when written are exactly the kinds that keep the virtual IP when the last instance goes (two sibling tables of the same relation)")
+	checkVIPKindAgreement(c)
+	r.Floor("C07.8", 1)
 
 	// ---- C07.1
 	for _, f := range fns {
@@ -844,4 +848,106 @@ func runC07(c *Ctx) {
 	}
 	r.Floor("C07.6", 1)
 	_ = fmt.Sprint
+}
+
+
+// C07.8: sibling agreement between the writer's predicate "an entry of this kind owns a virtual
+// IP" (kinds compared with GetKind() in a func(structs.ConfigEntry) bool used on the config-entry
+// write path) and the releaser's list of kinds whose existence keeps the address (the kind
+// arguments of the config-entry lookups in the function that deletes from service-virtual-ips).
+func checkVIPKindAgreement(c *Ctx) {
+	p, r := c.P, c.R
+	// writer side
+	assign := map[string]bool{}
+	var wfn *ssa.Function
+	for _, f := range p.SrcFuncs(statePkg) {
+		sig := f.Signature
+		if f.Parent() != nil || sig.Recv() != nil || sig.Params().Len() != 1 || sig.Results().Len() != 1 || !isBoolT(sig.Results().At(0).Type()) {
+			continue
+		}
+		if !strings.HasSuffix(core.ShortType(sig.Params().At(0).Type()), "structs.ConfigEntry") || !strings.Contains(strings.ToLower(f.Name()), "virtualip") {
+			continue
+		}
+		kinds := map[string]bool{}
+		for _, cv := range core.Comparisons(f, 1) {
+			if cv.Op != token.EQL {
+				continue
+			}
+			for _, pair := range [][2]ssa.Value{{cv.X, cv.Y}, {cv.Y, cv.X}} {
+				k, ok := core.ConstString(pair[0])
+				if !ok {
+					continue
+				}
+				if call, isCall := pair[1].(*ssa.Call); isCall && core.MethodNameOf(&call.Call) == "GetKind" {
+					kinds[k] = true
+				}
+			}
+		}
+		if len(kinds) > 0 {
+			wfn = f
+			for k := range kinds {
+				assign[k] = true
+			}
+		}
+	}
+	// releaser side
+	keep := map[string]bool{}
+	var rfn *ssa.Function
+	for _, f := range p.SrcFuncs(statePkg) {
+		if f.Parent() != nil || isRestoreMethod(f) {
+			continue
+		}
+		deletes := false
+		for _, b := range f.Blocks {
+			for _, in := range b.Instrs {
+				if op := core.AsMemdbOp(in); op != nil && op.Op == "Delete" && op.TableKnown && op.Table == "service-virtual-ips" {
+					deletes = true
+				}
+			}
+		}
+		if !deletes {
+			continue
+		}
+		for _, g := range funcGroup(f, 1) {
+			for _, in := range callsTo(g, func(cm *ssa.CallCommon) bool {
+				h := cm.StaticCallee()
+				return h != nil && strings.HasPrefix(h.Name(), "configEntry") && strings.HasSuffix(h.Name(), "Txn")
+			}) {
+				for _, a := range in.(ssa.CallInstruction).Common().Args {
+					if bt, ok := a.Type().Underlying().(*types.Basic); !ok || bt.Kind() != types.String {
+						continue
+					}
+					for _, leaf := range core.Leaves(a, core.SliceOpts{}) {
+						if k, ok := core.ConstString(leaf); ok && k != "" {
+							keep[k] = true
+							rfn = f
+						}
+					}
+				}
+			}
+		}
+	}
+	if wfn == nil || rfn == nil {
+		r.Unresolve("C07.8", "state.<virtual-ip kinds>", fmt.Sprintf("writer-side predicate found=%v, releaser-side lookups found=%v", wfn != nil, rfn != nil))
+		return
+	}
+	var onlyAssign, onlyKeep []string
+	for k := range assign {
+		if !keep[k] {
+			onlyAssign = append(onlyAssign, k)
+		}
+	}
+	for k := range keep {
+		if !assign[k] {
+			onlyKeep = append(onlyKeep, k)
+		}
+	}
+	sort.Strings(onlyAssign)
+	sort.Strings(onlyKeep)
+	construct := core.FuncName(wfn) + "~" + core.FuncName(rfn)
+	if len(onlyAssign) == 0 && len(onlyKeep) == 0 {
+		r.Hold("C07.8", construct, p.FuncPos(rfn), fmt.Sprintf("%d kinds on both sides", len(assign)))
+		return
+	}
+	r.Violate("C07.8", construct, p.FuncPos(rfn), fmt.Sprintf("kinds that assign a virtual IP but do not keep it when the last instance is deregistered: %v; kinds that keep it but never assign it: %v — a service whose config entry of such a kind still exists loses its virtual IP (and the address is handed to the next service) although a from-scratch recomputation would keep it", onlyAssign, onlyKeep))
 }
